@@ -72,24 +72,48 @@ theorem rstep_udp (cfg : Cfg) (x : Reader) (e : REv) : (rstep cfg x e).udp = x.u
 
 /-! ## channel ↔ media -/
 
-theorem mediaOfChan_chanOf (x : Reader) (m : Nat) (h : m ∈ x.meds) :
-    mediaOfChan x (2 * x.meds.idxOf m) = some m := by
+theorem idxOf_getElem_nodup {l : List Nat} (h : l.Nodup) (i : Nat) (hi : i < l.length) : l.idxOf l[i] = i := by
+  induction l generalizing i with
+  | nil => cases hi
+  | cons a t ih =>
+    rw [List.nodup_cons] at h
+    cases i with
+    | zero => simp
+    | succ j =>
+      have hj : j < t.length := by simpa using hi
+      have hne : a ≠ t[j] := fun e => h.1 (e ▸ List.getElem_mem hj)
+      simp only [List.getElem_cons_succ, List.idxOf_cons]
+      have : (a == t[j]) = false := by simpa using hne
+      rw [this]
+      simp [ih h.2 j hj]
+
+/-- the channel table of a reader: one channel per set-up media, no channel twice -/
+def ChanOK (x : Reader) : Prop := x.chs.length = x.meds.length ∧ x.chs.Nodup ∧ x.meds.Nodup
+
+theorem mediaOfChan_chanOf (x : Reader) (hc : ChanOK x) (m : Nat) (h : m ∈ x.meds) :
+    mediaOfChan x (chanOf x m) = some m := by
+  obtain ⟨hlen, hnd, _⟩ := hc
+  have hi : x.meds.idxOf m < x.meds.length := List.idxOf_lt_length_of_mem h
+  have hi' : x.meds.idxOf m < x.chs.length := by rw [hlen]; exact hi
+  have hch : chanOf x m = x.chs[x.meds.idxOf m] := by
+    unfold chanOf; rw [List.getD_eq_getElem?_getD, List.getElem?_eq_getElem hi']; rfl
   unfold mediaOfChan
-  have h1 : 2 * x.meds.idxOf m % 2 = 0 := by omega
-  have h2 : 2 * x.meds.idxOf m / 2 = x.meds.idxOf m := by omega
-  rw [if_pos h1, h2]
+  rw [hch]
+  have hmem : x.chs.contains x.chs[x.meds.idxOf m] = true := by
+    simp [List.getElem_mem hi']
+  rw [if_pos hmem, idxOf_getElem_nodup hnd _ hi']
   exact getElem?_idxOf_mem h
 
 /-- a frame built by `rwrite` for a set-up media and a known format is demultiplexed to its own
 media and format -/
 def FrameOK (cfg : Cfg) (x : Reader) (f : Frame) : Prop :=
-  f.media ∈ x.meds ∧ f.chan = 2 * x.meds.idxOf f.media ∧ (cfg.fmt? f.media f.pkt.pt).isSome = true
+  f.media ∈ x.meds ∧ f.chan = chanOf x f.media ∧ (cfg.fmt? f.media f.pkt.pt).isSome = true
 
-theorem demux_ok (cfg : Cfg) (x : Reader) (f : Frame) (h : FrameOK cfg x f) :
+theorem demux_ok (cfg : Cfg) (x : Reader) (hx : ChanOK x) (f : Frame) (h : FrameOK cfg x f) :
     demux cfg x f = some (f.media, f.pkt.pt) := by
   obtain ⟨hm, hc, hf⟩ := h
   unfold demux
-  rw [hc, mediaOfChan_chanOf x f.media hm]
+  rw [hc, mediaOfChan_chanOf x hx f.media hm]
   simp [hf]
 
 end Rtsp.Pipe
